@@ -68,7 +68,7 @@ func init() {
 			"'never early' is one-sided: the start instant is read before Play/MultiPlay is called, so machine load can only delay sends, never make the check fire",
 			"sysex events in tracks are not constrained (the statement speaks of channel messages and meta events)",
 		},
-		Require:         []string{"plays", "sends_observed", "same_tick_runs_ge_13", "cross_track_same_tick", "selections_proper_subset", "maps_without_default", "never_early_checks", "play_single_port", "replays_with_rerouted_map", "replays_with_another_map", "late_schedule_plays", "round_gap_plays", "selections_with_repeated_tracks", "long_plays_on_virtual_clock", "slow_ports", "files_with_tempo_curves_over_32_changes", "files_with_tempo_events_in_two_tracks_and_same_tick_pairs", "undecodable_tempo_events", "plays_of_tracks_with_more_than_65536_messages"},
+		Require:         []string{"plays", "sends_observed", "same_tick_runs_ge_13", "cross_track_same_tick", "selections_proper_subset", "maps_without_default", "never_early_checks", "play_single_port", "replays_with_rerouted_map", "replays_with_another_map", "late_schedule_plays", "round_gap_plays", "selections_with_repeated_tracks", "selections_of_absent_tracks_only", "long_plays_on_virtual_clock", "slow_ports", "files_with_tempo_curves_over_32_changes", "files_with_tempo_events_in_two_tracks_and_same_tick_pairs", "undecodable_tempo_events", "plays_of_tracks_with_more_than_65536_messages"},
 		FakeTimeWorkers: 2,
 		Workers:         16,
 		Run:             runC12,
@@ -264,11 +264,17 @@ func runC12(c *mon.Ctx) {
 			}
 		}
 		nPlain := len(sels) - 2
+		nRep := len(sels)
+		// only numbers of tracks the file does not have: a selection that selects nothing (not "no selection")
+		if r.P(1, 3) {
+			sels = append(sels, [][]int{{nt}, {nt + 2, nt + 5}, {nt + 40}}[r.Intn(3)])
+			c.Count("selections_of_absent_tracks_only", 1)
+		}
 		for si, sel := range sels {
 			if c.Quick() && si > 3 && si < nPlain && !r.P(1, 3) {
 				continue
 			}
-			if si >= nPlain {
+			if si >= nPlain && si < nRep {
 				c.Count("selections_with_repeated_tracks", 1)
 			}
 			selected := func(t int) bool {
